@@ -122,11 +122,21 @@ def clause_a(c: Check):
         c.expect(v == val, 'C06-a', 'logic.' + const, '%s is %r' % (const, v), 'src/exactly_lib/definitions/logic.py')
     # Grammar stores the levels in the given order
     init = ix.func(GR + ':Grammar.__init__')
+    gcls = ix.cls(GR + ':Grammar')
+    it2 = Interp(ix, fo, Hooks())
+    lv0, lv1, lv2 = Sym('level0'), Sym('level1'), Sym('level2')
+    lp = [p.arg for p in init.positional_params() if 'precedence' in p.arg]
+    c.require(len(lp) == 1, 'C06-a: precedence-levels parameter of Grammar not found')
     ok = False
-    for meth, v, st in ix.self_attr_assignments(ix.cls(GR + ':Grammar'), 'infix_ops_inc_precedence'):
-        if isinstance(v, ast.ListComp) and len(v.generators) == 1 and not v.generators[0].ifs \
-                and unparse(v.generators[0].iter) == 'infix_operators_in_order_of_increasing_precedence':
-            ok = True
+    for obj, st in it2.instantiate(gcls, State(), {lp[0]: ListVal([lv0, lv1, lv2])}):
+        stored = st.heap.get((obj.oid, 'infix_ops_inc_precedence'))
+        items = stored.items if isinstance(stored, ListVal) else None
+        ok = items is not None and len(items) == 3
+        if ok:
+            for x, lv in zip(items, (lv0, lv1, lv2)):
+                xo = x.origin if isinstance(x, Sym) else None
+                ok = ok and bool(xo) and xo[0] == 'call' and xo[1].endswith('name_and_value:to_dict') and len(xo[2]) == 1 \
+                     and xo[2][0] is lv
     c.expect(ok, 'C06-a', 'Grammar/keeps-level-order', 'Grammar does not keep the precedence levels in the given order',
              init.loc())
 
